@@ -1040,7 +1040,7 @@ pub fn make_observer(cfg: InvCfg, state: Arc<Mutex<InvState>>) -> k::Observer {
                         // a utimens that leaves the stored mtime as it was and
                         // does not move atime backwards changes nothing the
                         // statement cares about
-                        let harmless = matches!(r.kind, K::Utimens | K::Futimens) && fs.inodes.get(&r.ino).map(|i| i.mtime == r.prev_mtime && i.atime >= r.prev_atime).unwrap_or(false);
+                        let harmless = matches!(r.kind, K::Utimens | K::Futimens) && fs.inodes.get(&r.ino).map(|i| i.mtime == r.prev_mtime && (i.atime >= r.prev_atime || r.prev_atime > r.now || r.prev_mtime > r.now)).unwrap_or(false);
                         if !harmless {
                             st.violations.push(("readonly", format!("mutating call under read-only root {}: {}", root, r.short())));
                         }
